@@ -66,14 +66,15 @@ def handle_missing_node_child[
                 command=Command.internal,
                 message_type=Internal.I_PRESENTATION,
             )
-            if (
+            key = (
                 presentation_message.node_id,
                 presentation_message.child_id,
                 presentation_message.message_type,
-            ) not in message_buffer.internal_messages:
+            )
+            if key not in message_buffer.internal_messages:
                 await gateway.send(presentation_message, message_buffer=False)
-            # Buffer one message to avoid spamming gateway.
-            await gateway.send(presentation_message, message_buffer=True)
+            # Remember the request to avoid spamming gateway.
+            message_buffer.internal_messages[key] = presentation_message
 
             raise
 
